@@ -226,7 +226,7 @@ func findRejects(pk *packages.Package, f *core.FuncInfo, errNames map[string]boo
 		if as, ok := n.(*ast.AssignStmt); ok {
 			if len(as.Rhs) == 1 && len(as.Lhs) >= 1 {
 				if call, ok := as.Rhs[0].(*ast.CallExpr); ok {
-					if fn := staticCallee(info, call); fn != nil && leafs[fn.Name()] {
+					if fn := staticCallee(info, call); fn != nil && (leafs[fn.Name()] || passThroughLeaf(pk, fn, leafs)) {
 						if id, ok := as.Lhs[0].(*ast.Ident); ok && id.Name != "_" {
 							o := info.Defs[id]
 							if o == nil {
@@ -666,9 +666,18 @@ func checkDecoderSiblings(r *core.Result, prog *core.Program) int {
 		}
 		n++
 		set := map[string]bool{}
-		ast.Inspect(f.Decl.Body, func(nn ast.Node) bool {
-			if c, ok := nn.(*ast.CallExpr); ok {
-				if fn := staticCallee(info, c); fn != nil && fn.Pkg() != nil {
+		// leaf codecs called by the reader itself or by the unexported helpers of the package it calls (to depth 3),
+		// and leaf functions it hands to such a helper as a value
+		var visit func(body ast.Node, depth int)
+		seenDecl := map[*ast.FuncDecl]bool{}
+		visit = func(body ast.Node, depth int) {
+			ast.Inspect(body, func(nn ast.Node) bool {
+				switch c := nn.(type) {
+				case *ast.CallExpr:
+					fn := staticCallee(info, c)
+					if fn == nil || fn.Pkg() == nil {
+						return true
+					}
 					p := fn.Pkg().Path()
 					if p == root.PkgPath || p == "encoding/binary" || p == "math" {
 						if cl, ok := leafClass[fn.Name()]; ok && fn.Type().(*types.Signature).Recv() == nil || (p == "encoding/binary" && leafClass[fn.Name()] != "") {
@@ -678,10 +687,27 @@ func checkDecoderSiblings(r *core.Result, prog *core.Program) int {
 							set[cl] = true
 						}
 					}
+					if p == root.PkgPath && !fn.Exported() && depth < 3 {
+						if d := namedFuncDecl(root, info, funIdent(c.Fun)); d != nil && !seenDecl[d] {
+							seenDecl[d] = true
+							visit(d.Body, depth+1)
+						} else if d := methodDecl(root, info, fn); d != nil && !seenDecl[d] {
+							seenDecl[d] = true
+							visit(d.Body, depth+1)
+						}
+					}
+				case *ast.Ident:
+					// a leaf function used as a value (argument of a generic helper)
+					if fn, ok := info.Uses[c].(*types.Func); ok && fn.Pkg() == root.Types && fn.Type().(*types.Signature).Recv() == nil {
+						if cl, ok := leafClass[fn.Name()]; ok {
+							set[cl] = true
+						}
+					}
 				}
-			}
-			return true
-		})
+				return true
+			})
+		}
+		visit(f.Decl.Body, 0)
 		var got []string
 		for k := range set {
 			got = append(got, k)
@@ -691,4 +717,106 @@ func checkDecoderSiblings(r *core.Result, prog *core.Program) int {
 		r.Ob("D-leaf", "(*Decoder)."+name, prog.Pos(f.Pos()), g == decoderLeafTable[name], fmt.Sprintf("leaf codecs used: {%s}; sibling table: {%s}", g, decoderLeafTable[name]))
 	}
 	return n
+}
+
+// passThroughLeaf: fn is an unexported function or method of pk that obtains its first result from exactly one call
+// of a leaf reader and hands it on untouched (no comparison, conversion or arithmetic on it): the common prologue
+// of several readers moved into a helper. Callers are then analysed as if they had called the leaf themselves.
+func passThroughLeaf(pk *packages.Package, fn *types.Func, leafs map[string]bool) bool {
+	if fn.Exported() || fn.Pkg() != pk.Types {
+		return false
+	}
+	info := pk.TypesInfo
+	var decl *ast.FuncDecl
+	for _, f := range pk.Syntax {
+		for _, d := range f.Decls {
+			if fd, ok := d.(*ast.FuncDecl); ok && info.Defs[fd.Name] == fn {
+				decl = fd
+			}
+		}
+	}
+	if decl == nil || decl.Body == nil {
+		return false
+	}
+	var val types.Object
+	nLeaf := 0
+	ast.Inspect(decl.Body, func(n ast.Node) bool {
+		as, ok := n.(*ast.AssignStmt)
+		if !ok || len(as.Rhs) != 1 || len(as.Lhs) < 1 {
+			return true
+		}
+		if c, ok := as.Rhs[0].(*ast.CallExpr); ok {
+			if cf := staticCallee(info, c); cf != nil && leafs[cf.Name()] {
+				nLeaf++
+				if id, ok := as.Lhs[0].(*ast.Ident); ok {
+					val = info.Defs[id]
+					if val == nil {
+						val = info.Uses[id]
+					}
+				}
+			}
+		}
+		return true
+	})
+	if nLeaf != 1 || val == nil {
+		return false
+	}
+	// every use of the value: the defining assignment, or the first operand of a return
+	okUse := true
+	returned := false
+	parents := parentMap(decl.Body)
+	ast.Inspect(decl.Body, func(n ast.Node) bool {
+		id, ok := n.(*ast.Ident)
+		if !ok || (info.Uses[id] != val && info.Defs[id] != val) {
+			return true
+		}
+		switch p := parents[id].(type) {
+		case *ast.AssignStmt:
+			if len(p.Lhs) == 0 || p.Lhs[0] != ast.Expr(id) {
+				okUse = false
+			}
+		case *ast.ReturnStmt:
+			if len(p.Results) > 0 && p.Results[0] == ast.Expr(id) {
+				returned = true
+			} else {
+				okUse = false
+			}
+		case *ast.Field:
+			// a named result
+			returned = true
+		default:
+			okUse = false
+		}
+		return true
+	})
+	return okUse && returned
+}
+
+// funIdent: the identifier a call expression names (f, pkg.f, f[T]), or the expression itself.
+func funIdent(e ast.Expr) ast.Expr {
+	switch x := ast.Unparen(e).(type) {
+	case *ast.IndexExpr:
+		return funIdent(x.X)
+	case *ast.IndexListExpr:
+		return funIdent(x.X)
+	}
+	return e
+}
+
+// methodDecl finds the declaration of a method of pk.
+func methodDecl(pk *packages.Package, info *types.Info, fn *types.Func) *ast.FuncDecl {
+	if fn == nil || fn.Pkg() != pk.Types {
+		return nil
+	}
+	if o := fn.Origin(); o != nil {
+		fn = o
+	}
+	for _, f := range pk.Syntax {
+		for _, d := range f.Decls {
+			if fd, ok := d.(*ast.FuncDecl); ok && fd.Body != nil && info.Defs[fd.Name] == fn {
+				return fd
+			}
+		}
+	}
+	return nil
 }
